@@ -33,6 +33,7 @@ type reconnectState struct {
 	nextDelay   time.Duration
 	lastAttempt time.Time
 	timer       *time.Timer
+	gen         uint64 // bumped whenever the timer is armed or cancelled; a fired timer carrying an older value is stale
 }
 
 // Reconnector handles automatic reconnection with exponential backoff.
@@ -73,9 +74,7 @@ func (r *Reconnector) Schedule(addr string) {
 	}
 
 	// Cancel any existing timer
-	if state.timer != nil {
-		state.timer.Stop()
-	}
+	r.disarm(state)
 
 	// Check max attempts
 	if r.cfg.MaxAttempts > 0 && state.attempts >= r.cfg.MaxAttempts {
@@ -83,20 +82,37 @@ func (r *Reconnector) Schedule(addr string) {
 		return
 	}
 
-	// Calculate delay with jitter
-	delay := r.addJitter(state.nextDelay)
+	// Schedule reconnect (delay with jitter)
+	r.arm(addr, state, r.addJitter(state.nextDelay))
+}
 
-	// Schedule reconnect
+// disarm cancels the pending timer of state, including one that has already
+// fired but whose attempt has not started yet. Caller must hold r.mu.
+func (r *Reconnector) disarm(state *reconnectState) {
+	if state.timer != nil {
+		state.timer.Stop()
+		state.timer = nil
+	}
+	state.gen++
+}
+
+// arm replaces the pending timer of state, so that there is never more than
+// one retry chain per address. Caller must hold r.mu.
+func (r *Reconnector) arm(addr string, state *reconnectState, delay time.Duration) {
+	r.disarm(state)
+	gen := state.gen
 	state.timer = time.AfterFunc(delay, func() {
-		r.attemptReconnect(addr)
+		r.attemptReconnect(addr, state, gen)
 	})
 }
 
-// attemptReconnect attempts to reconnect to the given address.
-func (r *Reconnector) attemptReconnect(addr string) {
+// attemptReconnect attempts to reconnect to the given address. armed and gen
+// identify the timer that fired: the attempt is dropped if that timer has been
+// cancelled or replaced in the meantime, or if reconnection is paused.
+func (r *Reconnector) attemptReconnect(addr string, armed *reconnectState, gen uint64) {
 	r.mu.Lock()
 	state, exists := r.states[addr]
-	if !exists || r.closed {
+	if !exists || state != armed || state.gen != gen || r.closed || r.paused {
 		r.mu.Unlock()
 		return
 	}
@@ -122,13 +138,21 @@ func (r *Reconnector) attemptReconnect(addr string) {
 		return
 	}
 
+	// The state was cancelled or reset while the attempt was in flight:
+	// whoever did that owns the retry chain now.
+	if cur, ok := r.states[addr]; !ok || cur != state {
+		return
+	}
+
 	if err != nil {
 		// Reschedule if still within limits
 		if r.cfg.MaxAttempts == 0 || state.attempts < r.cfg.MaxAttempts {
-			delay := r.addJitter(state.nextDelay)
-			state.timer = time.AfterFunc(delay, func() {
-				r.attemptReconnect(addr)
-			})
+			if r.paused {
+				// Keep the state for Resume() + Schedule(), but start nothing while paused
+				r.disarm(state)
+				return
+			}
+			r.arm(addr, state, r.addJitter(state.nextDelay))
 		} else {
 			// Max attempts reached, clean up
 			delete(r.states, addr)
@@ -244,10 +268,7 @@ func (r *Reconnector) Pause() {
 
 	// Stop all pending timers
 	for _, state := range r.states {
-		if state.timer != nil {
-			state.timer.Stop()
-			state.timer = nil
-		}
+		r.disarm(state)
 	}
 }
 
